@@ -296,12 +296,14 @@ example : identifyPeaksIdx [(9 : Int), 2, 6, 0, 1, 1, 9] 1 5 = some [(0, 2), (4,
 
 end peaks
 
-/-- **peaks_frequency_edges.**  Each reported frequency range starts at the first frequency of its run
-    of bins and ends at the last frequency of the run plus `Δf = f₁ - f₀` (exclusive upper edge). -/
+/-- **peaks_frequency_edges.**  Each reported frequency range starts at the first frequency of its run of bins and ends
+    (exclusive) at the frequency of the bin AFTER the run — at the last frequency plus `Δf = f₁ - f₀` only when the run
+    ends with the spectrum (rule after the fix of F-C10-1). -/
 theorem peaks_frequency_edges (freq : List Rat) (rs : List (Nat × Nat)) (out : List (Rat × Rat))
     (h : rangesToFreq freq rs = some out) (hne : rs ≠ []) :
     ∃ f0 f1, freq[0]? = some f0 ∧ freq[1]? = some f1 ∧
-      List.Forall₂ (fun r o => ∃ a b, freq[r.1]? = some a ∧ freq[r.2]? = some b ∧ o = (a, b + (f1 - f0)))
+      List.Forall₂ (fun r o => ∃ a b, freq[r.1]? = some a ∧ freq[r.2]? = some b ∧
+          o = (a, (freq[r.2 + 1]?).getD (b + (f1 - f0))))
         rs out := by
   unfold rangesToFreq at h
   have hemp : rs.isEmpty = false := by cases rs <;> simp_all
@@ -323,8 +325,11 @@ theorem peaks_frequency_edges (freq : List Rat) (rs : List (Nat × Nat)) (out : 
         cases hb : freq[r.2]? with
         | none => simp [ha, hb] at hro
         | some b =>
-          simp [ha, hb] at hro
-          exact ⟨a, b, rfl, rfl, hro.symm⟩
+          simp only [ha, hb, Option.some.injEq] at hro
+          refine ⟨a, b, rfl, rfl, ?_⟩
+          rw [← hro]
+          unfold upperEdge
+          cases freq[r.2 + 1]? <;> rfl
 
 example : rangesToFreq [0, 1/2, 1, 3/2, 2] [(1, 2), (4, 4)] = some [(1/2, 3/2), (2, 5/2)] := by decide +kernel
 
@@ -978,126 +983,174 @@ theorem forall₂_mem_right {β γ} {R : β → γ → Prop} : ∀ {l₁ : List 
     · obtain ⟨b, hb, hr⟩ := ih a ha
       exact ⟨b, List.mem_cons_of_mem _ hb, hr⟩
 
-/-- **peaks_then_exclude.**  Handing the ranges `identify_peaks` returns to `_exclude_range` (what they are for) removes
-    every bin above the cut-off, on every non-decreasing frequency axis with `f₁ > f₀`. -/
-theorem peaks_then_exclude (freq flat : List Rat) (baseline cutoff : Rat) (hbc : baseline < cutoff)
-    (hlen : freq.length = flat.length) (hmono : freq.Pairwise (· ≤ ·))
-    (R : List (Nat × Nat)) (hR : identifyPeaksIdx flat baseline cutoff = some R)
-    (out : List (Rat × Rat)) (hout : rangesToFreq freq R = some out)
-    (hdf : ∀ f0 f1, freq[0]? = some f0 → freq[1]? = some f1 → f0 < f1)
-    (i : Nat) (hi : i < flat.length) (hpeak : cutoff < flat[i]) :
-    notExcluded out (freq[i]'(by omega)) = false := by
-  obtain ⟨r, hr, hr1, hr2⟩ := peaks_cover flat baseline cutoff hbc R hR i hi hpeak
-  have hne : R ≠ [] := List.ne_nil_of_mem hr
-  obtain ⟨f0, f1, h0, h1, hall⟩ := peaks_frequency_edges freq R out hout hne
-  obtain ⟨o, ho, a, b, ha, hb, rfl⟩ := forall₂_mem_left hall r hr
-  have hd := hdf f0 f1 h0 h1
-  obtain ⟨hl1, ea⟩ := List.getElem?_eq_some_iff.mp ha
-  obtain ⟨hl2, eb⟩ := List.getElem?_eq_some_iff.mp hb
-  have hia : a ≤ freq[i]'(by omega) := by
-    rw [← ea]
-    rcases Nat.eq_or_lt_of_le hr1 with e | e
-    · simp [e]
-    · exact List.pairwise_iff_getElem.mp hmono _ _ hl1 (by omega) e
-  have hib : freq[i]'(by omega) ≤ b := by
-    rw [← eb]
-    rcases Nat.eq_or_lt_of_le hr2 with e | e
-    · simp [e]
-    · exact List.pairwise_iff_getElem.mp hmono _ _ (by omega) hl2 e
-  cases hne' : notExcluded out (freq[i]'(by omega)) with
-  | false => rfl
-  | true =>
-    have := (notExcluded_iff out _).mp hne' _ ho
-    exact absurd ⟨hia, by linarith⟩ this
+/-- on a strictly increasing axis a bin lies in the reported frequency range `[lo, hi)` of an index range `r` exactly
+    when its index lies in `r` — no slack at the upper edge: `hi` IS the next bin (or beyond the last one) -/
+theorem edge_contains_iff (freq : List Rat) (hmono : freq.Pairwise (· < ·)) (df : Rat) (hdf : 0 < df)
+    (r : Nat × Nat) (hr : r.1 ≤ r.2) (o : Rat × Rat) (ho : edgeOf freq df r = some o) (i : Nat) (hi : i < freq.length) :
+    (o.1 ≤ freq[i] ∧ freq[i] < o.2) ↔ (r.1 ≤ i ∧ i ≤ r.2) := by
+  have lt_of : ∀ a b (ha : a < freq.length) (hb : b < freq.length), a < b → freq[a] < freq[b] :=
+    fun a b ha hb hab => List.pairwise_iff_getElem.mp hmono a b ha hb hab
+  have le_of : ∀ a b (ha : a < freq.length) (hb : b < freq.length), a ≤ b → freq[a] ≤ freq[b] := by
+    intro a b ha hb hab
+    rcases Nat.eq_or_lt_of_le hab with e | e
+    · subst e; exact le_refl _
+    · exact le_of_lt (lt_of a b ha hb e)
+  unfold edgeOf at ho
+  cases ha : freq[r.1]? with
+  | none => simp [ha] at ho
+  | some a =>
+    cases hb : freq[r.2]? with
+    | none => simp [ha, hb] at ho
+    | some b =>
+      simp only [ha, hb, Option.some.injEq] at ho
+      obtain ⟨hl1, ea⟩ := List.getElem?_eq_some_iff.mp ha
+      obtain ⟨hl2, eb⟩ := List.getElem?_eq_some_iff.mp hb
+      subst ho
+      simp only
+      unfold upperEdge
+      by_cases hnext : r.2 + 1 < freq.length
+      · rw [List.getElem?_eq_getElem hnext]
+        simp only
+        constructor
+        · rintro ⟨h1, h2⟩
+          constructor
+          · by_contra hc
+            have := lt_of i r.1 hi hl1 (by omega)
+            rw [ea] at this; linarith
+          · by_contra hc
+            have := le_of (r.2 + 1) i hnext hi (by omega)
+            linarith
+        · rintro ⟨h1, h2⟩
+          exact ⟨by rw [← ea]; exact le_of r.1 i hl1 hi h1, lt_of i (r.2 + 1) hi hnext (by omega)⟩
+      · rw [List.getElem?_eq_none (by omega)]
+        simp only
+        constructor
+        · rintro ⟨h1, _⟩
+          constructor
+          · by_contra hc
+            have := lt_of i r.1 hi hl1 (by omega)
+            rw [ea] at this; linarith
+          · omega
+        · rintro ⟨h1, h2⟩
+          refine ⟨by rw [← ea]; exact le_of r.1 i hl1 hi h1, ?_⟩
+          have := le_of i r.2 hi hl2 h2
+          rw [eb] at this; linarith
 
-/-- **peaks_then_exclude_only.**  On an axis whose spacing is everywhere at least `Δf = f₁ − f₀ > 0` (a uniform axis)
-    the exclusion removes ONLY bins at or above the baseline. -/
-theorem peaks_then_exclude_only (freq flat : List Rat) (baseline cutoff : Rat) (hbc : baseline < cutoff)
-    (hlen : freq.length = flat.length)
-    (R : List (Nat × Nat)) (hR : identifyPeaksIdx flat baseline cutoff = some R)
-    (out : List (Rat × Rat)) (hout : rangesToFreq freq R = some out) (hne : R ≠ [])
-    (df : Rat) (hdf : ∀ f0 f1, freq[0]? = some f0 → freq[1]? = some f1 → f1 - f0 = df) (hpos : 0 < df)
-    (hsp : ∀ j (h : j + 1 < freq.length), freq[j] + df ≤ freq[j + 1])
-    (i : Nat) (hi : i < flat.length) (hex : notExcluded out (freq[i]'(by omega)) = false) :
-    baseline ≤ flat[i] := by
-  -- strictly increasing, with steps of at least df
-  have hstep : ∀ (d j : Nat) (h : j + d < freq.length), freq[j]'(by omega) + (d : Rat) * df ≤ freq[j + d] := by
-    intro d
-    induction d with
-    | zero => intro j h; simp
-    | succ d ih =>
-      intro j h
-      have h1 := ih j (by omega)
-      have h2 := hsp (j + d) (by omega)
-      have e : freq[j + (d + 1)] = freq[j + d + 1] := by congr 1
-      rw [e]; push_cast; linarith
-  obtain ⟨f0, f1, h0, h1, hall⟩ := peaks_frequency_edges freq R out hout hne
-  have hd := hdf f0 f1 h0 h1
-  have hnot : ¬ ∀ o ∈ out, ¬ (o.1 ≤ freq[i]'(by omega) ∧ freq[i]'(by omega) < o.2) := by
-    intro h
-    have := (notExcluded_iff out _).mpr h
-    rw [this] at hex; cases hex
-  have : ∃ o ∈ out, o.1 ≤ freq[i]'(by omega) ∧ freq[i]'(by omega) < o.2 := by
+/-- **peaks_ranges_exact.**  On a strictly increasing frequency axis the reported frequency ranges contain exactly the
+    bins of the reported index ranges — with `lo ≤ f < hi` read literally, no slack at the upper edge. -/
+theorem peaks_ranges_exact (freq : List Rat) (hmono : freq.Pairwise (· < ·))
+    (R : List (Nat × Nat)) (hR : ∀ r ∈ R, r.1 ≤ r.2)
+    (out : List (Rat × Rat)) (hout : rangesToFreq freq R = some out) (i : Nat) (hi : i < freq.length) :
+    (∃ o ∈ out, o.1 ≤ freq[i] ∧ freq[i] < o.2) ↔ (∃ r ∈ R, r.1 ≤ i ∧ i ≤ r.2) := by
+  by_cases hne : R = []
+  · subst hne
+    simp [rangesToFreq] at hout
+    subst hout; simp
+  have hemp : R.isEmpty = false := by cases R <;> simp_all
+  unfold rangesToFreq at hout
+  simp only [hemp, Bool.false_eq_true, ↓reduceIte] at hout
+  cases h0 : freq[0]? with
+  | none => simp [h0] at hout
+  | some f0 =>
+    cases h1 : freq[1]? with
+    | none => simp [h0, h1] at hout
+    | some f1 =>
+      simp only [h0, h1] at hout
+      obtain ⟨hl0, e0⟩ := List.getElem?_eq_some_iff.mp h0
+      obtain ⟨hl1, e1⟩ := List.getElem?_eq_some_iff.mp h1
+      have hdf : 0 < f1 - f0 := by
+        have := List.pairwise_iff_getElem.mp hmono 0 1 hl0 hl1 (by omega)
+        rw [e0, e1] at this; linarith
+      have hall := mapM_option_some _ R out hout
+      constructor
+      · rintro ⟨o, ho, hin⟩
+        obtain ⟨r, hr, hro⟩ := forall₂_mem_right hall o ho
+        exact ⟨r, hr, (edge_contains_iff freq hmono _ hdf r (hR r hr) o hro i hi).mp hin⟩
+      · rintro ⟨r, hr, hin⟩
+        obtain ⟨o, ho, hro⟩ := forall₂_mem_left hall r hr
+        exact ⟨o, ho, (edge_contains_iff freq hmono _ hdf r (hR r hr) o hro i hi).mpr hin⟩
+
+theorem notExcluded_false_iff (ranges : List (Rat × Rat)) (x : Rat) :
+    notExcluded ranges x = false ↔ ∃ o ∈ ranges, o.1 ≤ x ∧ x < o.2 := by
+  constructor
+  · intro h
     by_contra hc
-    exact hnot (fun o ho hh => hc ⟨o, ho, hh⟩)
-  obtain ⟨o, ho, ho1, ho2⟩ := this
-  obtain ⟨r, hr, a, b, ha, hb, rfl⟩ := forall₂_mem_right hall o ho
-  obtain ⟨hl1, ea⟩ := List.getElem?_eq_some_iff.mp ha
-  obtain ⟨hl2, eb⟩ := List.getElem?_eq_some_iff.mp hb
-  simp only at ho1 ho2
-  rw [hd] at ho2
-  have hr1 : r.1 ≤ i := by
-    by_contra hlt
-    have hlt : i < r.1 := by omega
-    obtain ⟨d, hd'⟩ : ∃ d, r.1 = i + (d + 1) := ⟨r.1 - i - 1, by omega⟩
-    have := hstep (d + 1) i (by omega)
-    have e : freq[i + (d + 1)]'(by omega) = a := by rw [← ea]; congr 1; omega
-    rw [e] at this
-    have : (0 : Rat) < ((d + 1 : Nat) : Rat) * df := by positivity
-    linarith
-  have hr2 : i ≤ r.2 := by
-    by_contra hlt
-    obtain ⟨d, hd'⟩ : ∃ d, i = r.2 + (d + 1) := ⟨i - r.2 - 1, by omega⟩
-    have := hstep (d + 1) r.2 (by omega)
-    have e : freq[r.2 + (d + 1)]'(by omega) = freq[i]'(by omega) := by congr 1; omega
-    rw [e, eb] at this
-    have : df ≤ ((d + 1 : Nat) : Rat) * df := by
-      push_cast; nlinarith
-    linarith
-  obtain ⟨-, -, h3, -⟩ := peaks_above_baseline flat baseline cutoff hbc R hR r hr
-  obtain ⟨_, hb'⟩ := h3 i hr1 hr2
-  exact hb'
+    have : notExcluded ranges x = true := (notExcluded_iff ranges x).mpr (fun o ho hh => hc ⟨o, ho, hh⟩)
+    rw [this] at h; cases h
+  · rintro ⟨o, ho, hh⟩
+    cases hn : notExcluded ranges x with
+    | false => rfl
+    | true => exact absurd hh ((notExcluded_iff ranges x).mp hn o ho)
 
-/-- non-vacuity of `peaks_then_exclude` / `peaks_then_exclude_only`: a uniform half-integer axis, one peak -/
+/-- **peaks_range_only_baseline.**  The clause of the property, literally (no slack): every bin whose frequency lies
+    in a reported range `lo ≤ f < hi` is at or above the baseline; and every bin above the cut-off lies in one. -/
+theorem peaks_range_only_baseline (freq flat : List Rat) (baseline cutoff : Rat) (hbc : baseline < cutoff)
+    (hlen : freq.length = flat.length) (hmono : freq.Pairwise (· < ·))
+    (R : List (Nat × Nat)) (hR : identifyPeaksIdx flat baseline cutoff = some R)
+    (out : List (Rat × Rat)) (hout : rangesToFreq freq R = some out) (i : Nat) (hi : i < flat.length) :
+    ((∃ o ∈ out, o.1 ≤ freq[i]'(by omega) ∧ freq[i]'(by omega) < o.2) → baseline ≤ flat[i]) ∧
+    (cutoff < flat[i] → ∃ o ∈ out, o.1 ≤ freq[i]'(by omega) ∧ freq[i]'(by omega) < o.2) := by
+  have hRle : ∀ r ∈ R, r.1 ≤ r.2 := fun r hr => (peaks_above_baseline flat baseline cutoff hbc R hR r hr).1
+  have hex := peaks_ranges_exact freq hmono R hRle out hout i (by omega)
+  constructor
+  · intro h
+    obtain ⟨r, hr, h1, h2⟩ := hex.mp h
+    obtain ⟨-, -, h3, -⟩ := peaks_above_baseline flat baseline cutoff hbc R hR r hr
+    obtain ⟨_, hb⟩ := h3 i h1 h2
+    exact hb
+  · intro hpeak
+    exact hex.mpr (peaks_cover flat baseline cutoff hbc R hR i hi hpeak)
+
+/-- **peaks_then_exclude.**  Handing the ranges `identify_peaks` returns to `_exclude_range` (what they are for) removes
+    every bin above the cut-off and ONLY bins at or above the baseline, on every strictly increasing frequency axis
+    (no hypothesis on the spacing any more: the upper edge is the next bin itself). -/
+theorem peaks_then_exclude (freq flat : List Rat) (baseline cutoff : Rat) (hbc : baseline < cutoff)
+    (hlen : freq.length = flat.length) (hmono : freq.Pairwise (· < ·))
+    (R : List (Nat × Nat)) (hR : identifyPeaksIdx flat baseline cutoff = some R)
+    (out : List (Rat × Rat)) (hout : rangesToFreq freq R = some out) (i : Nat) (hi : i < flat.length) :
+    (cutoff < flat[i] → notExcluded out (freq[i]'(by omega)) = false) ∧
+    (notExcluded out (freq[i]'(by omega)) = false → baseline ≤ flat[i]) := by
+  obtain ⟨h1, h2⟩ := peaks_range_only_baseline freq flat baseline cutoff hbc hlen hmono R hR out hout i hi
+  exact ⟨fun hp => (notExcluded_false_iff out _).mpr (h2 hp), fun he => h1 ((notExcluded_false_iff out _).mp he)⟩
+
+/-- non-vacuity: a uniform half-integer axis, one peak -/
 example : identifyPeaksIdx ([0, 2, 6, 2, 0] : List Rat) 1 5 = some [(1, 3)] ∧
     rangesToFreq [0, 1/2, 1, 3/2, 2] [(1, 3)] = some [(1/2, 2)] ∧
-    ([0, 1/2, 1, 3/2, 2] : List Rat).Pairwise (· ≤ ·) ∧
+    ([0, 1/2, 1, 3/2, 2] : List Rat).Pairwise (· < ·) ∧
     notExcluded [((1/2 : Rat), (2 : Rat))] 1 = false := by
   refine ⟨by decide +kernel, by decide +kernel, by decide +kernel, by decide +kernel⟩
 
-/-- the spacing hypothesis of `peaks_then_exclude_only` is necessary (kernel-checked): on the axis `[0, 2, 3, 4]`
-    (`Δf = f₁ − f₀ = 2`, later spacing 1) the peak at bin 1 is reported as `[2, 4)`, which also removes bin 2 (below the
-    baseline) -/
-example : (mkSpec [0, 2, 3, 4] [0, 9, 0, 0] 1).identifyPeaks [0, 9, 0, 0] 1 5 = .ok ([(1, 1)], [(2, 4)]) ∧
+/-- a non-uniform increasing axis `[0, 2, 3, 4]`: the peak at bin 1 is reported as `[2, 3)` and its exclusion removes
+    bin 1 alone (the rule before the fix reported `[2, 4)` and removed bin 2 as well, see below) -/
+example : (mkSpec [0, 2, 3, 4] [0, 9, 0, 0] 1).identifyPeaks [0, 9, 0, 0] 1 5 = .ok ([(1, 1)], [(2, 3)]) ∧
+    ((mkSpec [0, 2, 3, 4] [0, 9, 0, 0] 1).excludeRange [(2, 3)]).freq = [0, 3, 4] ∧
+    rangesToFreqUnfixed [0, 2, 3, 4] [(1, 1)] = some [(2, 4)] ∧
     ((mkSpec [0, 2, 3, 4] [0, 9, 0, 0] 1).excludeRange [(2, 4)]).freq = [0, 4] := by
-  refine ⟨by decide +kernel, by decide +kernel⟩
+  refine ⟨by decide +kernel, by decide +kernel, by decide +kernel, by decide +kernel⟩
 
-/-- FINDING (kernel-checked on the code's own doubles): the frequency axis `rfftfreq(12, 1/7)` as exact rationals of its
-    doubles violates the spacing hypothesis at its end — `f₅ + (f₁ − f₀) > f₆` (in exact arithmetic, and also after
-    rounding: `2.916666666666667 + 0.5833333333333334 = 3.5000000000000004 > 3.5`) — so the range reported for a peak
-    at bin 5 alone contains the Nyquist bin 6, which is below the baseline, and excluding the reported range removes
-    it as well. -/
-example :
-    let freq : List Rat := [0, 5254199565265579/9007199254740992, 5254199565265579/4503599627370496, 7/4,
-      5254199565265579/2251799813685248, 3283874728290987/1125899906842624, 7/2]
+/-- the frequency axis `rfftfreq(12, 1/7)` as exact rationals of its doubles -/
+def axis12at7 : List Rat := [0, 5254199565265579/9007199254740992, 5254199565265579/4503599627370496, 7/4,
+  5254199565265579/2251799813685248, 3283874728290987/1125899906842624, 7/2]
+
+/-- **F_C10_1_witness** (finding F-C10-1, fixed; kernel-checked on the code's own doubles).  Before the fix
+    `identify_peaks` reported the exclusive upper edge as `frequency[x1] + df`.  On the axis `rfftfreq(12, 1/7)` this sum
+    exceeds the next bin, `f₅ + (f₁ − f₀) > f₆ = 3.5` (in exact arithmetic, and also after rounding:
+    `2.916666666666667 + 0.5833333333333334 = 3.5000000000000004`), so the range reported for a peak at bin 5 alone
+    contained the Nyquist bin 6 — below the baseline — and excluding the reported range removed it as well.  The
+    repaired rule reports `[f₅, f₆)`, which contains bin 5 only. -/
+theorem F_C10_1_witness :
     let flat : List Rat := [0, 1/2, 1/2, 1/2, 1/2, 30, 1/2]
-    ∃ hi, (mkSpec freq flat 1).identifyPeaks flat 1 20 = .ok ([(5, 5)], [(3283874728290987/1125899906842624, hi)]) ∧
-      7/2 < hi ∧
-      ((mkSpec freq flat 1).excludeRange [(3283874728290987/1125899906842624, hi)]).freq = freq.take 5 := by
-  refine ⟨3283874728290987/1125899906842624 + 5254199565265579/9007199254740992, by decide +kernel, by decide +kernel,
-    by decide +kernel⟩
+    identifyPeaksIdx flat 1 20 = some [(5, 5)] ∧
+    (∃ hi, rangesToFreqUnfixed axis12at7 [(5, 5)] = some [(3283874728290987/1125899906842624, hi)] ∧ 7/2 < hi ∧
+      (excludeLists [(3283874728290987/1125899906842624, hi)] axis12at7 flat).1 = axis12at7.take 5) ∧
+    rangesToFreq axis12at7 [(5, 5)] = some [(3283874728290987/1125899906842624, 7/2)] ∧
+    (excludeLists [((3283874728290987/1125899906842624 : Rat), (7/2 : Rat))] axis12at7 flat).1
+      = axis12at7.take 5 ++ [7/2] := by
+  refine ⟨by decide +kernel,
+    ⟨3283874728290987/1125899906842624 + 5254199565265579/9007199254740992, by decide +kernel, by decide +kernel,
+      by decide +kernel⟩, by decide +kernel, by decide +kernel⟩
 
-/-- the model's `excludePeaks` is `identify_peaks` followed by `_exclude_range` of the reported ranges (what the two
+/-- the model's `excludePeaks` is `identify_peaks` followed by `_exclude_range` of the reported ranges (what the
     theorems above are about) -/
 theorem excludePeaks_ok (s : Spec) (flat : List Rat) (baseline cutoff : Rat) (rs : List (Nat × Nat)) (fr : List (Rat × Rat))
     (h : s.identifyPeaks flat baseline cutoff = .ok (rs, fr)) :
